@@ -267,7 +267,7 @@ Theorem C09_observation_pipeline : forall c,
     | None => false
     | Some es =>
       out_wf c (CN es) (map (fun k => clevel_count k (CN es)) (seq 0 (out_depth c)))
-      && content_ok (k_d c) (op_img c) (ccontent (k_d c) (inj (k_tree c))) (ccontent (k_d c) (CN es))
+      && content_okg (op_mfn c) (k_d c) (op_img c) (ccontent (k_d c) (inj (k_tree c))) (ccontent (k_d c) (CN es))
     end.
 Proof. exact c09_pipeline. Qed.
 Print Assumptions C09_observation_pipeline.
@@ -411,32 +411,60 @@ Theorem C09_content_ok_of_sq : forall img src t', csorted t' = true ->
 Proof. exact content_ok_of_sq. Qed.
 Print Assumptions C09_content_ok_of_sq.
 
-(* THE MODEL MEETS THE ORACLE: for every well-formed case - every operation (swizzle, swizzle and
-   inverse, swap, swap twice, flatten tuple / pair / linear, merge absolute / relative, unflatten
-   of flatten, flatten-absolute of split), every depth, number of levels and style, trees with
-   explicit defaults and empty sub-fibers - the faithful model's observation satisfies the
-   property oracle.  (No hypothesis about the known-finding region is needed: region 1 describes
-   where the IMPLEMENTATION's _mergeToFibertree fails, the model has no such defect.) *)
+(* the oracle for a merge function other than sum: every point of the result is the image of an
+   operand point and carries the reduction ([redv]: max / min) of exactly the operand points that
+   map to it; every operand point is represented unless the reduction is the default *)
+Theorem C09_oracle_sound_mfn : forall mfn d img src out, content_okf mfn d img src out = true ->
+  (forall q v, In (q, v) out ->
+     (exists p w, In (p, w) src /\ img p = q) /\ v = reds_to mfn img src q)
+  /\ (forall p w, In (p, w) src ->
+        reds_to mfn img src (img p) = d \/ exists v, In (img p, v) out).
+Proof. exact content_okf_sound. Qed.
+Print Assumptions C09_oracle_sound_mfn.
+
+Theorem C09_merge_functions : forall vs,
+  redv mf_sum vs = sumZ vs
+  /\ redv mf_max vs = match vs with [] => 0 | v :: vs' => fold_left Z.max vs' v end
+  /\ redv mf_min vs = match vs with [] => 0 | v :: vs' => fold_left Z.min vs' v end.
+Proof. exact redv_cases. Qed.
+Print Assumptions C09_merge_functions.
+
+(* THE MODEL MEETS THE ORACLE: for every well-formed case whose merge function is the default sum -
+   every operation (swizzle, swizzle and inverse, swap, swap twice, flatten tuple / pair / linear,
+   merge absolute / relative, unflatten of flatten, flatten-absolute of split), every depth,
+   number of levels and style, trees with explicit defaults and empty sub-fibers - the faithful
+   model's observation satisfies the property oracle.
+   [op_mfn c] is the merge function of an OMerge case (0 = sum, 1 = max, 2 = min) and 0 for every
+   other operation, so the hypothesis only restricts OMerge.  For merge_fn = max / min the model
+   (merge_tf_f / merge_helper_f with [redv]) and the oracle ([content_okf]: the value of an image
+   point is the max / min of exactly the operand points that map to it) are executable and are
+   decided on every generated case by oracle + correspondence + verdict bit 4; they are NOT
+   covered by this theorem (the [sq] relation joins entries with +).
+   Full statement wanted: the same without the hypothesis [op_mfn c = mf_sum]. *)
 Theorem C09_model_meets_spec : forall c,
-  c09_wf c = true -> holds c09_checker c (model c09_checker c) = true.
+  c09_wf c = true -> op_mfn c = mf_sum -> holds c09_checker c (model c09_checker c) = true.
 Proof.
-  intros c Hwf. destruct (k_op c) as [perm|perm|dp|dp|dp lv st|dp lv st|dp lv st|dp stp] eqn:E.
+  intros c Hwf Hm. destruct (k_op c) as [perm|perm|dp|dp|dp lv st|dp lv st mf|dp lv st|dp stp] eqn:E.
   - eapply spec_swizzle; eauto.
   - eapply spec_swizzle_inv; eauto.
   - eapply spec_swap; eauto.
   - eapply spec_swapswap; eauto.
   - destruct dp; [eapply spec_flatten_root|eapply spec_flatten_below]; eauto.
-  - eapply spec_merge; eauto.
+  - unfold op_mfn in Hm. rewrite E in Hm. subst mf. eapply spec_merge; eauto.
   - eapply spec_flatunflat; eauto.
   - eapply spec_splitflat; eauto.
 Qed.
 Print Assumptions C09_model_meets_spec.
 
-(* the same, in the form "outside the known-finding region" *)
-Theorem C09_model_meets_spec_region0 : forall c,
-  c09_wf c = true -> region c09_checker c = 0 -> holds c09_checker c (model c09_checker c) = true.
-Proof. intros c Hwf _. apply C09_model_meets_spec. exact Hwf. Qed.
-Print Assumptions C09_model_meets_spec_region0.
+(* every operation other than mergeRanks: no hypothesis at all *)
+Theorem C09_model_meets_spec_non_merge : forall c,
+  c09_wf c = true -> (forall dp lv st mf, k_op c <> OMerge dp lv st mf) ->
+  holds c09_checker c (model c09_checker c) = true.
+Proof.
+  intros c Hwf Hn. apply C09_model_meets_spec; [exact Hwf|].
+  unfold op_mfn. destruct (k_op c) eqn:E; try reflexivity. exfalso. eapply Hn. reflexivity.
+Qed.
+Print Assumptions C09_model_meets_spec_non_merge.
 
 (* non-vacuity: a 3-rank fiber with an explicit default and an empty sub-fiber is in the
    domain of C09_flatten for two levels, its flattening is in the domain of C09_unflatten, and
@@ -458,6 +486,6 @@ Example C09_nonvacuous_holds :
   forallb (fun o => let c := Build_c09_case ex_tree 0 [4; 3; 3] o in
                     holds c09_checker c (model c09_checker c))
     [OSwizzle [2; 0; 1]%nat; OSwizzleInv [1; 2; 0]%nat; OSwap 1; OSwapSwap 0;
-     OFlatten 0 2 st_pair; OFlatten 1 1 st_linear; OMerge 0 2 st_relative; OMerge 0 1 st_absolute;
+     OFlatten 0 2 st_pair; OFlatten 1 1 st_linear; OMerge 0 2 st_relative mf_sum; OMerge 0 1 st_absolute mf_sum; OMerge 0 2 st_absolute mf_max; OMerge 0 1 st_relative mf_min;
      OFlatUnflat 0 2 st_tuple; OSplitFlat 1 2] = true.
 Proof. vm_compute. reflexivity. Qed.
